@@ -645,13 +645,20 @@ package lang
 //@   loop 0 invariant protocol: evOK(e) && e.stackTop == $frame && $frame.parent == old(e.stackTop) && !$faulted && !$bodyRan
 //@   loop 0 invariant[C08] parameters-bound-by-position: forall k int :: 0 <= k && k <= rangeindex ==> has($frame.locals, fn.Value.Fn.Args[k]) && fresh($frame.locals[fn.Value.Fn.Args[k]])
 
+//@ ghost $eqSeen bool
+//@ ghost $lit *Cell
 //@ func Evaluator.evalCaseMatch [C01,C08,C11,C19]
 //@   modifies valueHeap, e.stackTop, e.returnVal
 //@   requires evOK(e) && value != nil && !$faulted
+//@   init $eqSeen = false
+//@   after Evaluator.evalExpr: $lit = ret0
+//@   after Value.Equals: $eqSeen = $eqSeen || (ret1 == nil && ret0)
+//@   assert[C19] literal-is-compared-with-the-subject-by-equality: arg0 == &value.Value && arg1 == &$lit.Value @ Value.Equals
+//@   ensures[C19] equal-literal-matches: err == nil && $eqSeen ==> result0
 //@   exit[C19] every-alternative-tried-before-failing: err == nil && !result0 ==> rangeindex#0 >= len(exprs)
-//@   loop 0 invariant protocol: evInv(e, old(e.stackTop))
-//@   loop 1 invariant protocol: evInv(e, old(e.stackTop))
-//@   loop 2 invariant protocol: evInv(e, old(e.stackTop))
+//@   loop 0 invariant protocol: evInv(e, old(e.stackTop)) && !$eqSeen
+//@   loop 1 invariant protocol: evInv(e, old(e.stackTop)) && !$eqSeen
+//@   loop 2 invariant protocol: evInv(e, old(e.stackTop)) && !$eqSeen
 //@   updates $faulted, $out
 //@   ensures[C01] errkind: err == nil || isRT(err) || isFlow(err)
 //@   ensures[C08] stack-restored: stackKept(e, old(e.stackTop), err)
@@ -1187,14 +1194,26 @@ package lang
 // array.contains(x): agrees with == applied to each element in order
 //@ spec func specEq(a Value, b Value) bool = !specLess(a, b) && !specGreater(a, b)
 //@ spec func comparable(a Value, b Value) bool = a.Tag == ValueNil || b.Tag == ValueNil || (!isContainerTag(a.Tag) && !isContainerTag(b.Tag))
+// What == computes (DESIGN.md section 3.3): an unset operand equals nothing.
+//@ spec func specEqOp(a Value, b Value) bool = a.Tag != ValueUnknown && b.Tag != ValueUnknown && specEq(a, b)
+//@ spec func eqFaults(a Value, b Value) bool = a.Tag != ValueUnknown && b.Tag != ValueUnknown && !comparable(a, b)
+//@ func Value.Equals [C05,C11,C15,C19]
+//@   requires v != nil && b != nil && !$faulted
+//@   updates $faulted
+//@   ensures[C11] fault-latched: $faulted <==> err != nil
+//@   ensures[C05] error-iff-containers: (err != nil) <==> eqFaults(*v, *b)
+//@   ensures[C05,C15,C19] agrees-with-equality-operator: err == nil ==> result0 == specEqOp(*v, *b)
+//@   ensures[C01] errkind: err == nil || isPlainErr(err)
+//@   modifies nothing
+
 //@ func getArrayPrototype/contains [C15]
 //@   implements Value.NativeFn
 //@   ensures[C15] one-argument: this != nil && len(v) != 1 ==> err != nil
-//@   ensures[C15] found-means-some-element-equals: this != nil && err == nil && *result0.Bool ==> (exists k int :: 0 <= k && k < len(this.Array) && comparable(*v[0], this.Array[k].Value) && specEq(*v[0], this.Array[k].Value))
-//@   ensures[C15] not-found-means-none-equals: this != nil && err == nil && !*result0.Bool ==> (forall k int :: 0 <= k && k < len(this.Array) ==> comparable(*v[0], this.Array[k].Value) && !specEq(*v[0], this.Array[k].Value))
+//@   ensures[C15] found-means-some-element-equals: this != nil && err == nil && *result0.Bool ==> (exists k int :: 0 <= k && k < len(this.Array) && specEqOp(this.Array[k].Value, *v[0]))
+//@   ensures[C15] not-found-means-none-equals: this != nil && err == nil && !*result0.Bool ==> (forall k int :: 0 <= k && k < len(this.Array) ==> !eqFaults(this.Array[k].Value, *v[0]) && !specEqOp(this.Array[k].Value, *v[0]))
 //@   ensures[C15] result-is-bool: this != nil && err == nil ==> result0 != nil && result0.Tag == ValueBool
 //@   modifies nothing
-//@   loop 0 invariant scanned: !$faulted && (forall k int :: 0 <= k && k <= rangeindex ==> comparable(*v[0], this.Array[k].Value) && !specEq(*v[0], this.Array[k].Value))
+//@   loop 0 invariant scanned: !$faulted && (forall k int :: 0 <= k && k <= rangeindex ==> !eqFaults(this.Array[k].Value, *v[0]) && !specEqOp(this.Array[k].Value, *v[0]))
 
 // object.length()
 //@ func getObjPrototype/length [C16]
